@@ -1,5 +1,5 @@
 """C03 - water content and ponding within physical limits (kind B, exploration)."""
-from .common import std_case, std_run, reclamp_cn, hardpan_regime, HARDPAN_PROFILE, shallow_pond_regime, SHALLOW_POND_PROFILE, STATE_MEASURE  # noqa: F401
+from .common import std_case, std_run, reclamp_cn, hardpan_regime, HARDPAN_PROFILE, shallow_pond_regime, SHALLOW_POND_PROFILE, table_jump_regime, TABLE_JUMP_PROFILE, STATE_MEASURE  # noqa: F401
 from ..monitors import mon_c03
 
 ID = "C03"
@@ -21,6 +21,9 @@ LOAM = lambda rng: ["hyd", None, round(rng.uniform(0.12, 0.16), 3), round(rng.un
 
 
 def gen_case(rng, tier, idx):
+    if idx % 8 == 7:
+        # a water table jumping between a shallow and a deep regime, with rain on the day it moves
+        return table_jump_regime(rng, std_case(rng, dict(PROFILE, **TABLE_JUMP_PROFILE)))
     if idx % 4 == 3:
         # permeable top soil over a nearly impermeable porous pan, frequent rain: water backs up towards the surface
         return hardpan_regime(rng, std_case(rng, dict(PROFILE, **HARDPAN_PROFILE)))
